@@ -46,7 +46,7 @@ META = {
 
 T_R = ('ks', 'r')
 T_C = ('ks', 'c')
-COLS = ('st', 'v', 's', 'l', 'm')
+COLS = ('st', 'v', 's', 'l', 'm', 'nm', 'nl')   # nm, nl: collections whose elements are (frozen) collections
 KEYS = {'X': (1, 1), 'Y': (1, 2)}           # home keys: where a slot's instance is created
 LOCS = ((1, 1), (1, 2), (1, 3), (2, 1), (2, 2), (2, 3))   # every (pk, ck) an instance can be moved to by key assignment + save
 
@@ -70,6 +70,8 @@ def models():
         s = columns.Set(columns.Integer)
         l = columns.List(columns.Integer)
         m = columns.Map(columns.Integer, columns.Integer)
+        nm = columns.Map(columns.Integer, columns.List(columns.Integer))     # map<int, frozen<list<int>>>
+        nl = columns.List(columns.Set(columns.Integer))                     # list<frozen<set<int>>>
 
     class C(Model):
         __table_name__ = 'c'
@@ -83,20 +85,51 @@ def models():
 def new_db():
     mq = models()['minicql']
     return mq.Database([
-        mq.Table('ks', 'r', ['pk'], ['ck'], {'st': 'scalar', 'v': 'scalar', 's': 'set', 'l': 'list', 'm': 'map'}, static=['st']),
+        mq.Table('ks', 'r', ['pk'], ['ck'], {'st': 'scalar', 'v': 'scalar', 's': 'set', 'l': 'list', 'm': 'map',
+                                                'nm': 'map', 'nl': 'list'}, static=['st']),
         mq.Table('ks', 'c', ['pk'], [], {'n': 'counter'}),
     ])
 
 
-def nv(v):
-    """Comparable form of a column value (empty collection == null)."""
+def _deep(v):
+    """Hashable form of a (nested) value: set -> frozenset, list -> tuple, dict -> sorted item tuple."""
     if isinstance(v, (set, frozenset)):
-        return frozenset(v) or None
+        return frozenset(_deep(x) for x in v)
     if isinstance(v, (list, tuple)):
-        return tuple(v) or None
+        return tuple(_deep(x) for x in v)
     if isinstance(v, dict):
-        return tuple(sorted(v.items())) or None
+        return tuple(sorted((_deep(k), _deep(x)) for k, x in v.items()))
     return v
+
+
+def nv(v):
+    """Comparable form of a column value (an empty collection column == null; nested collections by value)."""
+    if isinstance(v, (set, frozenset, list, tuple, dict)):
+        return _deep(v) or None
+    return v
+
+
+def _inner_containers(v):
+    """The mutable containers strictly inside a column value."""
+    out = []
+    if isinstance(v, dict):
+        kids = list(v.values())
+    elif isinstance(v, (set, frozenset, list, tuple)):
+        kids = list(v)
+    else:
+        return out
+    for k in kids:
+        if isinstance(k, (set, list, dict)):
+            out.append(k)
+        out.extend(_inner_containers(k))
+    return out
+
+
+def shared_inner(value, previous):
+    """Number of inner containers of the live value that are the same object as an inner container of the
+    snapshot (previous value): hidden instance state, part of the canonical state."""
+    prev = set(id(x) for x in _inner_containers(previous))
+    return sum(1 for x in _inner_containers(value) if id(x) in prev)
 
 
 class Violation(Exception):
@@ -161,7 +194,8 @@ class World(object):
             if i is None:
                 insts.append(None)
             else:
-                vals = tuple((n, nv(m.value), nv(m.previous_value), bool(m.explicit)) for n, m in sorted(i._values.items()))
+                vals = tuple((n, nv(m.value), nv(m.previous_value), bool(m.explicit), shared_inner(m.value, m.previous_value))
+                             for n, m in sorted(i._values.items()))
                 insts.append((self.sync[slot], bool(i._is_persisted), vals))
         return (self.db.snapshot(), tuple(insts))
 
@@ -296,14 +330,36 @@ MUTATIONS = [
     ('s={1}', lambda i: i.s != {1}, lambda i: setattr(i, 's', {1}), False),
     ('l=[1]', lambda i: i.l != [1], lambda i: setattr(i, 'l', [1]), False),
     ('m={1:10}', lambda i: i.m != {1: 10}, lambda i: setattr(i, 'm', {1: 10}), False),
+    # ---- nested collections.  An inner container is changed IN PLACE (no assignment to the column or to the entry);
+    # inner containers are never emptied (see ASSUMPTIONS)
+    ('nm[1].append3', lambda i: 1 in i.nm, lambda i: i.nm[1].append(3), False),
+    ('nm[1].pop', lambda i: len(i.nm.get(1, ())) > 1, lambda i: i.nm[1].pop(), False),
+    ('nm[2][0]=6', lambda i: 2 in i.nm and i.nm[2][0] != 6, lambda i: i.nm[2].__setitem__(0, 6), False),
+    ('nl[0].add3', lambda i: bool(i.nl) and 3 not in i.nl[0], lambda i: i.nl[0].add(3), False),
+    ('nl[-1].add4', lambda i: bool(i.nl) and 4 not in i.nl[-1], lambda i: i.nl[-1].add(4), False),
+    ('nl[0].discard1', lambda i: bool(i.nl) and 1 in i.nl[0] and len(i.nl[0]) > 1, lambda i: i.nl[0].discard(1), False),
+    ('nested-combo', lambda i: 1 in i.nm and bool(i.nl),
+     lambda i: (i.nm[1].insert(0, 9), i.nl[-1].add(9), setattr(i, 'v', 6)), False),
+    # entry / whole-column assignment of nested values
+    ('nm[3]=[7]', lambda i: i.nm.get(3) != [7], lambda i: i.nm.__setitem__(3, [7]), False),
+    ('nm[1]=[1,2,3]', lambda i: 1 in i.nm and i.nm[1] != [1, 2, 3], lambda i: i.nm.__setitem__(1, [1, 2, 3]), False),
+    ('del nm[1]', lambda i: 1 in i.nm, lambda i: i.nm.__delitem__(1), False),
+    ('nm={1:[1,2],2:[5]}', lambda i: i.nm != {1: [1, 2], 2: [5]}, lambda i: setattr(i, 'nm', {1: [1, 2], 2: [5]}), False),
+    ('nm=empty', lambda i: bool(i.nm), lambda i: setattr(i, 'nm', {}), False),
+    ('nl.append{5}', lambda i: True, lambda i: i.nl.append({5}), False),
+    ('nl.pop', lambda i: bool(i.nl), lambda i: i.nl.pop(), False),
+    ('nl=[{1},{2}]', lambda i: i.nl != [{1}, {2}], lambda i: setattr(i, 'nl', [{1}, {2}]), False),
+    ('nl=None', lambda i: bool(i.nl), lambda i: setattr(i, 'nl', None), False),
     ('combo', lambda i: True,
      lambda i: (setattr(i, 'v', None), i.s.add(4), i.l.append(4), i.m.pop(2, None), i.m.__setitem__(5, 50)), False),
     ('combo-static', lambda i: True,
      lambda i: (setattr(i, 'st', 'k'), setattr(i, 'v', 6), i.m.pop(1, None)), True),
 ]
 QUICK_MUT_SAVE = {'v=7', 'v=None', 'st=b', 'st=None', 's.add3', 's.discard1', 's=empty', 'l.append3', 'l.prepend0', 'l.pop',
-                  'l=empty', 'm[3]=30', 'del m[1]', 'm=empty', 'combo', 's={1,2}', 'l=[1,2]', 'm={1:10,2:20}', 's={1}', 'l=[1]', 'm={1:10}'}
-QUICK_MUT_UPDATE = {'v=None', 's.add3', 'combo', 'm={7:70}', 'l.both'}
+                  'l=empty', 'm[3]=30', 'del m[1]', 'm=empty', 'combo', 's={1,2}', 'l=[1,2]', 'm={1:10,2:20}', 's={1}', 'l=[1]', 'm={1:10}',
+                  'nm[1].append3', 'nm[1].pop', 'nl[0].add3', 'nl[-1].add4', 'nested-combo', 'nm[3]=[7]', 'del nm[1]',
+                  'nm={1:[1,2],2:[5]}', 'nl.append{5}', 'nl=[{1},{2}]'}
+QUICK_MUT_UPDATE = {'v=None', 's.add3', 'combo', 'm={7:70}', 'l.both', 'nm[1].append3', 'nl[0].add3', 'nm[3]=[7]', 'nl=[{1},{2}]'}
 
 
 def op_mutate(slot, mut, persist):
@@ -331,8 +387,8 @@ REKEYS = [
     ('pk=1', {'pk': 1}),
 ]
 QUICK_REKEY = [('ck=3', None), ('ck=3', 'v=7'), ('ck=3', 'v=None'), ('ck=3', 'combo'), ('pk=2', None), ('pk=2', 'combo-static'),
-               ('pk=2,ck=3', 'l.append3')]
-FULL_REKEY = [('ck=3', m) for m in (None, 'v=7', 'v=None', 'st=None', 'del m[1]', 'combo')] + \
+               ('pk=2,ck=3', 'l.append3'), ('ck=3', 'nm[1].append3')]
+FULL_REKEY = [('ck=3', m) for m in (None, 'v=7', 'v=None', 'st=None', 'del m[1]', 'combo', 'nm[1].append3', 'nl[0].add3')] + \
              [('pk=2', None), ('pk=2', 'combo-static'), ('pk=2,ck=3', 'l.append3'), ('pk=1', None)]
 
 
@@ -443,6 +499,19 @@ def op_reload(slot):
     return ('%s.reload' % slot, fn)
 
 
+def op_refetch(slot):
+    """Replace an in-sync instance by the instance a query for its row yields (values and snapshot taken from a result row)."""
+    def fn(w):
+        if w.inst[slot] is None or not w.sync[slot] or slot == 'Z' or not w.row_exists(slot):
+            return False
+        pk, ck = w.key(slot)
+        got = w.R.objects.filter(pk=pk, ck=ck).first()
+        if got is None:
+            raise Violation('C35/refetch/row-missing', 'objects(pk=%d, ck=%d).first() found no row although the row exists' % (pk, ck))
+        w.inst[slot] = got
+    return ('%s.refetch' % slot, fn)
+
+
 def op_iff(slot, hold):
     from cassandra.cqlengine.query import LWTException
 
@@ -508,17 +577,17 @@ def _eff_set_remove(col, operand):
 
 
 def _eff_append(col, operand):
-    return lambda row: row.__setitem__(col, nv(list(row[col] or ()) + list(operand)))
+    return lambda row: row.__setitem__(col, nv(list(row[col] or ()) + list(_deep(operand))))
 
 
 def _eff_prepend(col, operand):
-    return lambda row: row.__setitem__(col, nv(list(operand) + list(row[col] or ())))
+    return lambda row: row.__setitem__(col, nv(list(_deep(operand)) + list(row[col] or ())))
 
 
 def _eff_map_update(col, operand):
     def f(row):
         d = dict(row[col] or ())
-        d.update(operand)
+        d.update(_deep(operand))
         row[col] = nv(d)
     return f
 
@@ -558,6 +627,13 @@ QS_UPDATES = [
     ('m__remove=empty', {'m__remove': set()}, [], False, True),
     ('m={7:70}', {'m': {7: 70}}, [_eff_assign('m', {7: 70})], False, True),
     ('m=empty', {'m': {}}, [_eff_assign('m', None)], False, False),
+    ('nm__update={3:[7]}', {'nm__update': {3: [7]}}, [_eff_map_update('nm', {3: [7]})], False, True),
+    ('nm__update={1:[9],4:[4,4]}', {'nm__update': {1: [9], 4: [4, 4]}}, [_eff_map_update('nm', {1: [9], 4: [4, 4]})], False, False),
+    ('nm__remove={1}', {'nm__remove': {1}}, [_eff_map_remove('nm', {1})], False, False),
+    ('nm={7:[7,8]}', {'nm': {7: [7, 8]}}, [_eff_assign('nm', {7: [7, 8]})], False, False),
+    ('nl__append=[{5}]', {'nl__append': [{5}]}, [_eff_append('nl', [{5}])], False, True),
+    ('nl__prepend=[{8},{9}]', {'nl__prepend': [{8}, {9}]}, [_eff_prepend('nl', [{8}, {9}])], False, False),
+    ('nl=[{7,8}]', {'nl': [{7, 8}]}, [_eff_assign('nl', [{7, 8}])], False, False),
     ('mixed', {'v': 2, 's__add': {6}, 'l__prepend': [6], 'm__update': {6: 60}, 'st': 'w'},
      [_eff_assign('v', 2), _eff_set_add('s', {6}), _eff_prepend('l', [6]), _eff_map_update('m', {6: 60}), _eff_assign('st', 'w')], True, True),
     ('mixed-nulls', {'v': None, 's__remove': {2}, 'l': None, 'm__update': {2: 22}},
@@ -701,11 +777,11 @@ def alphabet(kind):
     quick = kind != 'full'
     models()
     ops = []
-    full = {'v': 1, 's': {1, 2}, 'l': [1, 2], 'm': {1: 10, 2: 20}, 'st': 'a'}
+    full = {'v': 1, 's': {1, 2}, 'l': [1, 2], 'm': {1: 10, 2: 20}, 'st': 'a', 'nm': {1: [1, 2], 2: [5]}, 'nl': [{1}, {2}]}
     ops.append(op_create('X', 'min', {}, False))
     ops.append(op_create('X', 'full', full, True))
     ops.append(op_create('X', 'one', {'v': 1, 's': {1}, 'l': [1], 'm': {1: 10}}, False))
-    ops.append(op_create('X', 'nulls', {'v': None, 's': set(), 'l': [], 'm': {}, 'st': None}, True))
+    ops.append(op_create('X', 'nulls', {'v': None, 's': set(), 'l': [], 'm': {}, 'st': None, 'nm': {}, 'nl': []}, True))
     ops.append(op_create_ine('X'))
     for mut in MUTATIONS:
         if not quick or mut[0] in QUICK_MUT_SAVE:
@@ -717,11 +793,13 @@ def alphabet(kind):
         ops.append(op_rekey('X', (label, rk[label]), mutname))
     ops.append(op_update_kw('X', 'v=None', {'v': None}))
     ops.append(op_update_kw('X', 'm={5:50}', {'m': {5: 50}}))
+    ops.append(op_update_kw('X', 'nm={1:[4]},nl=[{4}]', {'nm': {1: [4]}, 'nl': [{4}]}))
     if not quick:
         ops.append(op_update_kw('X', 'v=8,s={5},l=[]', {'v': 8, 's': {5}, 'l': []}))
         ops.append(op_update_kw('X', 'st=u', {'st': 'u'}, True))
     ops.append(op_delete('X'))
     ops.append(op_reload('X'))
+    ops.append(op_refetch('X'))
     ops.append(op_iff('X', True))
     ops.append(op_iff('X', False))
     if not quick:
@@ -738,7 +816,7 @@ def alphabet(kind):
         ops.append(op_reload('Y'))
         ops.append(op_qs_update('Y', QS_UPDATES[0]))
         ops.append(op_rekey('Y', ('pk=2', rk['pk=2']), 'v=7'))
-    ops.append(op_batch('create X,Y', [('X', 'create', {'v': 1, 'm': {1: 10}}), ('Y', 'create', {'v': 2, 's': {2}})]))
+    ops.append(op_batch('create X,Y', [('X', 'create', {'v': 1, 'm': {1: 10}, 'nm': {1: [1, 2]}, 'nl': [{1, 2}]}), ('Y', 'create', {'v': 2, 's': {2}})]))
     ops.append(op_batch('X combo, Y v=7', [('X', 'mutate', 'combo'), ('Y', 'mutate', 'v=7')]))
     if kind != 'deep':
         ops.append(op_batch('X ck=3, Y v=7', [('X', 'rekey', 'ck=3'), ('Y', 'mutate', 'v=7')]))
